@@ -21,9 +21,9 @@ var schemaClasses = []gen.Tok{
 func runC06(c *core.Ctx) {
 	const thm = "C06 (props/C06.v); model op ps = ParseSchema.dump_parse_schema"
 	c.ReplayKnown()
-	maxLen, nDocs := 5, 6000
+	maxLen, nDocs := 5, 20000
 	if !c.Quick {
-		maxLen, nDocs = 6, 100000
+		maxLen, nDocs = 6, 300000
 	}
 	pre := [][]byte{[]byte("1"), []byte("0"), []byte("0")}
 	n := enumTokenSeqsPar(c, "ps", pre, schemaClasses, maxLen, thm)
